@@ -51,6 +51,10 @@ func c12Schema(order int) *j.Schema {
 		panic(err)
 	}
 	FixFromOne(s)
+	if order%2 == 1 {
+		// a schema assembled by hand from a list of types (no AddType call ever saw it)
+		s = &j.Schema{Types: append(make([]j.Type, 0, 8), s.Types...)}
+	}
 	return s
 }
 
@@ -208,6 +212,18 @@ func c12Ops() []c12Op {
 		// self link into the document's own Links map)
 		c12Echo("a", `{"data":{"type":"a","id":"1","attributes":{"x":"v"}},"meta":{"m":1}}`, "/a/1"),
 		c12Echo("b", `{"data":{"type":"b","id":"2"},"links":{"next":"/n"}}`, "/b/2?sort=x"),
+		// new resources created through the schema's own list of types rather than a GetType copy
+		{"Types[i].New()+Set (soft types, through the schema's own elements)", func(s *j.Schema) string {
+			out := ""
+			for i := range s.Types {
+				if n := s.Types[i].Name; n == "b" || n == "c" || n == "e" {
+					r := s.Types[i].New()
+					r.Set("id", "viaelem")
+					out += c18Read(r) + ";"
+				}
+			}
+			return out
+		}},
 		{"HasType", func(s *j.Schema) string { return fmt.Sprint(s.HasType("a"), s.HasType("c"), s.HasType("nope")) }},
 		{"GetType", func(s *j.Schema) string {
 			t, n := s.GetType("b"), s.GetType("nope")
@@ -613,7 +629,7 @@ func init() {
 	_ = sort.Strings
 	Register(&Prop{
 		ID: "C12",
-		Rule: "Engine C (cooperative scheduler over the yield points the instrumenter puts before every statement) + snapshot monitor. Shared schema: a struct-backed type, a soft type with a two-way relationship to it, and a soft type with nil maps, in every order of the three types. 19 operations with private inputs (two requests that echo the document they received, 4 URL parses incl. a JSON and/or filter tree, wrapping and marshaling a handler's own view struct that is not in the schema - in the free-running pass a struct type never seen before on every call -, 2 document unmarshals, 2 partial unmarshals, Type.New()+Set for each type, marshaling an own document, HasType, GetType, Check, Rels). (1) every operation x 6 type orders run alone with the deep snapshot of the schema recomputed after EVERY statement (a change = a shared write, attributed to the function); (2) every operation against 6 representative operations on 2 threads (thorough: every ordered pair) and every triple of 3 (thorough 6) representative operations on 3 threads: ALL schedules with scheduling points at function entries and <= 1 preemption (thorough: <= 2), each thread's result compared with its solo result, schema snapshot unchanged; thorough adds statement-granularity schedules for 10 query-vs-parser pairs; (3) every ordered pair of operations run in sequence from the state the first one leaves (state count must stay 1); (4) a separate free-running pass of the same operation bodies under the Go race detector (2, 4, 16 goroutines). By the lemma in DESIGN.md 2.4, no write step in any solo run => no interleaving of any number of such threads contains one. Non-trivial = schedule with at least one context switch / monitored solo run",
+		Rule: "Engine C (cooperative scheduler over the yield points the instrumenter puts before every statement) + snapshot monitor. Shared schema: a struct-backed type, a soft type with a two-way relationship to it, and a soft type with nil maps, in every order of the three types, built through AddType or assembled by hand from a list of types. 20 operations with private inputs (new resources through the schema's own Types elements, two requests that echo the document they received, 4 URL parses incl. a JSON and/or filter tree, wrapping and marshaling a handler's own view struct that is not in the schema - in the free-running pass a struct type never seen before on every call -, 2 document unmarshals, 2 partial unmarshals, Type.New()+Set for each type, marshaling an own document, HasType, GetType, Check, Rels). (1) every operation x 6 type orders run alone with the deep snapshot of the schema recomputed after EVERY statement (a change = a shared write, attributed to the function); (2) every operation against 6 representative operations on 2 threads (thorough: every ordered pair) and every triple of 3 (thorough 6) representative operations on 3 threads: ALL schedules with scheduling points at function entries and <= 1 preemption (thorough: <= 2), each thread's result compared with its solo result, schema snapshot unchanged; thorough adds statement-granularity schedules for 10 query-vs-parser pairs; (3) every ordered pair of operations run in sequence from the state the first one leaves (state count must stay 1); (4) a separate free-running pass of the same operation bodies under the Go race detector (2, 4, 16 goroutines). By the lemma in DESIGN.md 2.4, no write step in any solo run => no interleaving of any number of such threads contains one. Non-trivial = schedule with at least one context switch / monitored solo run",
 		Assumptions: []string{"an unsynchronised write that stores an unchanged value is invisible to the snapshot monitor; it is left to the permuted type orders and to the free-running -race pass (supporting evidence)", "memory-model effects below statement granularity are not modelled"},
 		Harnesses: []Harness{
 			{Name: "C12/solo-monitor", Body: c12Solo},
